@@ -103,6 +103,49 @@ theorem DecodesTo.isEven {s x y : K} (h : DecodesTo P S s x y) : IsSquare (1 - P
   field_simp
   linear_combination -ht
 
+/-- the algebra of decoding for ANY inverse square root `v` of `u₂u₁²` (used for the native decoder, where `v` comes
+from the square-root routine, and for the R1CS gadget, where `v` is a prover-supplied witness) -/
+theorem decodes_of_root {s v : K} (hn : S.neg s = false)
+    (hv : v ^ 2 * (((1 - s ^ 2) ^ 2 - 4 * P.d * s ^ 2) * (1 - s ^ 2) ^ 2) = 1) :
+    let v' := if S.neg (2 * s * (1 - s ^ 2) * v) = true then -v else v
+    DecodesTo P S s (2 * s * (1 - s ^ 2) * v' ^ 2 * ((1 - s ^ 2) ^ 2 - 4 * P.d * s ^ 2)) ((1 + s ^ 2) * v' * (1 - s ^ 2)) := by
+  intro v'
+  set u1 := 1 - s ^ 2 with hu1
+  set uu := u1 ^ 2 - 4 * P.d * s ^ 2 with huu
+  have hu1ne : u1 ≠ 0 := by
+    intro h0; rw [h0] at hv; simp at hv
+  have hv'sq : v' ^ 2 = v ^ 2 := by
+    show (if S.neg (2 * s * u1 * v) = true then -v else v) ^ 2 = v ^ 2
+    split <;> ring
+  have hv2' : v' ^ 2 * (uu * u1 ^ 2) = 1 := by rw [hv'sq]; exact hv
+  have hvne : v' ≠ 0 := by
+    intro h0; rw [h0] at hv2'; simp at hv2'
+  have hnonneg : S.neg (2 * s * u1 * v') = false := by
+    show S.neg (2 * s * u1 * (if S.neg (2 * s * u1 * v) = true then -v else v)) = false
+    by_cases hc : S.neg (2 * s * u1 * v) = true
+    · rw [if_pos hc]
+      have hz : 2 * s * u1 * v ≠ 0 := by
+        intro h0; rw [h0, S.neg_zero] at hc; exact absurd hc (by simp)
+      have : 2 * s * u1 * -v = -(2 * s * u1 * v) := by ring
+      rw [this, S.neg_neg _ hz, hc]; rfl
+    · rw [if_neg hc]; simpa using hc
+  refine ⟨hn, 1 / (v' * u1), ?_, ?_, ?_, ?_⟩
+  · unfold u2
+    rw [← hu1, ← huu]
+    clear_value v' uu u1
+    field_simp
+    linear_combination -hv2'
+  · have : 2 * s / (1 / (v' * u1)) = 2 * s * u1 * v' := by
+      clear_value v' uu u1
+      field_simp
+    rw [this]; exact hnonneg
+  · rw [← hu1]
+    clear_value v' uu u1
+    field_simp
+    linear_combination (2 * s) * hv2'
+  · clear_value v' uu u1
+    field_simp
+
 variable {R}
 
 /-- what the optimised decoder returns satisfies the specification -/
